@@ -94,7 +94,7 @@ impl Property for C07 {
     type Scenario = Scenario;
 
     fn rule() -> String {
-        "seeded state-aware histories of 2-14 ops (create, create_new, open truncate/append, write_at, append, set_len, sync_all, sync_data, sync_dir, rename incl. onto existing names, remove_file, create_dir, remove_dir) through the std shim, the tokio shim and io_uring (write/fsync SQEs), sync_probability in {0,0.3}, block_size in {None,4,16}; fault = crash: for each seeded history a crash is injected after EVERY prefix (fresh Fs per prefix; handles dropped, Fs::crash), a quarter of the histories also contain an earlier crash (crash-continue-crash); a third of the crash points are additionally replayed inside a running turmoil::Sim (history as host program, Sim::crash + Sim::bounce, the restarted incarnation dumps the tree, a second host runs the full history on the same path names); after each crash the recursive tree (entry sets, kinds, lengths, full contents) is compared with the durable image of the inode-based reference model (entry durable iff its parent was sync_dir'ed after the entry change; content = content at last data sync; with the knobs on, content must lie in the admissible set: a later data-op snapshot / block-prefix overlays of pending writes). Non-trivial: the crash discarded >=1 pending change and >=1 durable file or directory survived; distinct = distinct digests of (op kinds, post-crash tree shape)".into()
+        "seeded state-aware histories of 2-14 ops (create, create_new, open truncate/append, write_at, append, set_len, sync_all, sync_data, sync_dir, rename incl. onto existing names, remove_file, create_dir, remove_dir) through the std shim, the tokio shim and io_uring (write/fsync SQEs), sync_probability in {0,0.3}, block_size in {None,4,16}; fault = crash: for each seeded history a crash is injected after EVERY prefix (fresh Fs per prefix; handles dropped, Fs::crash), a quarter of the histories also contain an earlier crash (crash-continue-crash); a third of the crash points are additionally replayed inside a running turmoil::Sim (history as host program, Sim::crash + Sim::bounce, the restarted incarnation dumps the tree, a second host runs the full history on the same path names); after each crash the recursive tree (entry sets, kinds, lengths, full contents) is compared with the durable image of the inode-based reference model (entry durable iff its parent was sync_dir'ed after the entry change; content = content at last data sync; with the knobs on, content must lie in the admissible set: a later data-op snapshot / block-prefix overlays of pending writes). Non-trivial: the crash discarded >=1 pending change and >=1 durable file or directory survived; distinct = distinct digests of (op kinds, post-crash tree shape) Round 11: in a third of the in-Sim runs every crash is one Sim::crash / Sim::bounce call with a regex matching all hosts.".into()
     }
     fn components_real() -> Vec<&'static str> {
         vec!["turmoil-fs: Fs (pending log, sync_file, sync_file_data, sync_dir, crash, torn writes, random sync), shim::std::fs, shim::tokio::fs"]
